@@ -342,14 +342,14 @@ func modelText(a *adapter, model map[string][]any) string {
 	return sb.String()
 }
 
-func TestFlow(t *testing.T)      { runModule(t, flowAdapter, hx.N{Quick: 1200, Thorough: 8000}) }
-func TestIsolation(t *testing.T) { runModule(t, isolationAdapter, hx.N{Quick: 1200, Thorough: 8000}) }
-func TestHotspot(t *testing.T)   { runModule(t, hotspotAdapter, hx.N{Quick: 1200, Thorough: 8000}) }
+func TestFlow(t *testing.T)      { runModule(t, flowAdapter, hx.N{Quick: 6000, Thorough: 64000}) }
+func TestIsolation(t *testing.T) { runModule(t, isolationAdapter, hx.N{Quick: 6000, Thorough: 64000}) }
+func TestHotspot(t *testing.T)   { runModule(t, hotspotAdapter, hx.N{Quick: 6000, Thorough: 64000}) }
 func TestCircuitBreaker(t *testing.T) {
-	runModule(t, circuitbreakerAdapter, hx.N{Quick: 1200, Thorough: 8000})
+	runModule(t, circuitbreakerAdapter, hx.N{Quick: 6000, Thorough: 64000})
 }
-func TestSystem(t *testing.T)  { runModule(t, systemAdapter, hx.N{Quick: 1200, Thorough: 8000}) }
-func TestOutlier(t *testing.T) { runModule(t, outlierAdapter, hx.N{Quick: 1200, Thorough: 8000}) }
+func TestSystem(t *testing.T)  { runModule(t, systemAdapter, hx.N{Quick: 6000, Thorough: 64000}) }
+func TestOutlier(t *testing.T) { runModule(t, outlierAdapter, hx.N{Quick: 6000, Thorough: 64000}) }
 
 // P24 (known): a valid circuit-breaking rule of an unsupported strategy is reported by the getters although no breaker enforces it.
 func TestP_KnownP24(t *testing.T) {
